@@ -732,36 +732,72 @@ func ruleIdTieBreak(c *Ctx, rule string, fn *ssa.Function) {
 	c.Check(ok, rule, name, p.Pos(fn.Pos()), "(\"id\", ascending) is appended unconditionally and the comparator loop ranges over the extended list", why)
 }
 
-// ruleRowComparatorFirstNonZero: the compound comparator returns the first non-zero result.
+// ruleRowComparatorFirstNonZero: the compound comparator returns the first non-zero result of its field
+// comparators, in order, and zero when all of them tie — decided by running the function over three field
+// comparators whose results are given (however the loop is written: range with an early return, an index loop
+// with the result in the condition, a flag).
 func ruleRowComparatorFirstNonZero(c *Ctx, rule string, fn *ssa.Function) {
 	p := c.P
 	name := FnName(fn)
 	c.Analysed(name)
-	fi := ComputeFacts(fn)
-	loops := loopsOf(fn)
-	ok := len(loops) == 1
-	why := "expected a single loop over the symbol comparators"
-	if ok {
-		// inside the loop: a return of the element result under result != 0
-		found := false
-		for _, r := range returnsOf(fn) {
-			if !loops[0].Blocks[r.Block()] && r.Block().Idom() != nil && !loops[0].Blocks[r.Block().Idom()] {
-				continue
+	ok, why, undecided := true, "", ""
+	for _, sc := range []struct {
+		results []int64
+		want    int64
+	}{
+		{[]int64{0, 5, 9}, 5},
+		{[]int64{0, 0, 0}, 0},
+		{[]int64{-3, 1, 1}, -3},
+		{[]int64{0, 0, -7}, -7},
+		{nil, 0},
+	} {
+		k := 0
+		oracle := func(v ssa.Value) (AV, bool) {
+			call, isCall := v.(*ssa.Call)
+			if !isCall {
+				return AV{}, false
 			}
-			v := r.Results[0]
-			if call, isCall := v.(*ssa.Call); isCall && (call.Call.IsInvoke() || call.Call.StaticCallee() != nil) {
-				if fi.HoldsWhere(r.Block(), func(f Fact) bool {
-					bo, isB := f.V.(*ssa.BinOp)
-					return f.Kind == "true" && isB && bo.X == v && ((bo.Op == token.NEQ && f.Pol) || (bo.Op == token.EQL && !f.Pol))
-				}) {
-					found = true
+			if bi, isB := call.Call.Value.(*ssa.Builtin); isB && bi.Name() == "len" {
+				return avInt(int64(len(sc.results))), true
+			}
+			// a field comparator's verdict: the k-th one asked
+			isInt := false
+			if b, okB := call.Type().Underlying().(*types.Basic); okB && b.Kind() == types.Int {
+				isInt = true
+			}
+			if isInt && (call.Call.IsInvoke() || call.Call.StaticCallee() == nil) && len(call.Call.Args) == 2 {
+				if k < len(sc.results) {
+					k++
+					return avInt(sc.results[k-1]), true
 				}
+				k++
+				return avInt(0), true
 			}
+			return AV{}, false
 		}
-		ok = found
-		why = "no early return of the first non-zero field comparison"
+		res, err := Decide(fn, oracle, nil)
+		if err != "" || len(res) != 1 || res[0].Kind != "const" {
+			if err == "" {
+				err = "the result is not a decided constant"
+			}
+			undecided = fmt.Sprintf("field results %v: %s", sc.results, err)
+			continue
+		}
+		got, _ := constant.Int64Val(res[0].C)
+		if got != sc.want {
+			ok = false
+			why = fmt.Sprintf("with field comparators answering %v the compound comparator returns %d, expected %d (the first non-zero answer in order, 0 when all tie): the sort order of rows is not the lexicographic order of the sort fields", sc.results, got, sc.want)
+		}
+		if k > len(sc.results) {
+			ok = false
+			why = fmt.Sprintf("with %d field comparators the compound comparator asks for a %d-th verdict", len(sc.results), k)
+		}
 	}
-	c.Check(ok, rule, name, p.Pos(fn.Pos()), "loops over the field comparators and returns the first non-zero result", why)
+	if ok && undecided != "" {
+		c.Undecided(rule, name, p.Pos(fn.Pos()), "the compound comparator could not be evaluated: "+undecided)
+		return
+	}
+	c.Check(ok, rule, name, p.Pos(fn.Pos()), "returns the first non-zero answer of the field comparators in order, zero when all tie (decided for 0 and 3 field comparators, five answer patterns)", why)
 }
 
 // ---- PARSE -------------------------------------------------------------------------------------------
@@ -828,6 +864,53 @@ func ruleC02Parse(c *Ctx) {
 				}
 			}
 		}
+	}
+	// ... wherever the mapping is written (a switch, a dispatch table, a handler a factory built): decided by
+	// running VisitTerminal for the NONE token and looking at what it pushes
+	push := p.Method("ast", "ToBoltListener", "pushStack")
+	noneOracle := func(v ssa.Value) (AV, bool) {
+		if call, isCall := v.(*ssa.Call); isCall {
+			if invokeNamed(call, "GetTokenType") {
+				return avInt(noneTok), true
+			}
+			if invokeNamed(call, "HasError") {
+				return avBool(false), true
+			}
+		}
+		if u, isU := v.(*ssa.UnOp); isU && u.Op == token.MUL {
+			if f, base := loadedField(u); f != nil && base == ssa.Value(vt.Params[0]) {
+				if bt, isB := f.Type().Underlying().(*types.Basic); isB && bt.Kind() == types.Bool {
+					return avBool(false), true // debug printing switches of the listener
+				}
+			}
+		}
+		return AV{}, false
+	}
+	evs, derr := DecideCalls(vt, noneOracle, func(ci ssa.CallInstruction) bool { return isCallTo(ci, push) })
+	if derr == "" {
+		valueIdx := ".f?"
+		if st, isSt := intConst.Underlying().(*types.Struct); isSt {
+			for i := 0; i < st.NumFields(); i++ {
+				if st.Field(i).Name() == "value" {
+					valueIdx = fmt.Sprintf(".f%d", i)
+				}
+			}
+		}
+		okNone = false
+		if len(evs) == 1 {
+			ev := evs[0]
+			last := len(ev.Args) - 1
+			if last >= 0 && ev.ArgTypes[last] != nil && namedOf(ev.ArgTypes[last]) == intConst {
+				if v, has := ev.ArgFields[last][valueIdx]; has && v.Kind == "const" {
+					if k, exact := constant.Int64Val(v.C); exact && k == -1 {
+						okNone = true
+					}
+				}
+			}
+		}
+	} else if !okNone {
+		c.Undecided("C02.PARSE", FnName(vt)+": NONE", p.Pos(vt.Pos()), "what VisitTerminal pushes for the NONE token could not be decided: "+derr)
+		return
 	}
 	c.Check(okNone, "C02.PARSE", FnName(vt)+": NONE", p.Pos(vt.Pos()), "the NONE token is turned into the -1 marker (unbounded)", "LIMIT NONE is not mapped to the -1 'unbounded' marker")
 	// pop order in ExitQueryStmt: limit, skip, sortBy, predicate
